@@ -147,7 +147,14 @@ let c18_monitors (timpl : table) (hist : ((n * n) * n) list) (o : op) (t' : tabl
   chk "entry-removed-without-cause" (pol_leave_b t o t') @
   chk "leaver-not-succeeded" (pol_succ_b t o t') @
   chk "record-downgrade" (pol_record_b t o t') @
-  chk "live-after-endpoint-change" (pol_endpoint_b t o t')
+  chk "live-after-endpoint-change" (pol_endpoint_b t o t') @
+  (* converse of the leave rule (C18_entry_leaves_if), again with the history-derived consecutive count *)
+  (if pol_kept_b t o t' then []
+   else ["entry-kept-despite-cause " ^ where ^
+         (match must_leave_b t o with
+          | Some (id, _) -> Printf.sprintf " bucket-entries=%d"
+              (List.fold_left (fun a b -> if List.exists (fun e -> e.nd.nid = id) b.ents then List.length b.ents else a) 0 t.bks)
+          | None -> "")])
 
 (* ---- one line *)
 let make_ctx selfhex poolstr =
